@@ -1101,6 +1101,24 @@ func (g *Gen) backEdge(li *loopInfo, st *State, cond string, from *ssa.BasicBloc
 		ko := g.addObl("inv-keep", lab, implies(cond, s), pos, "loop invariant preserved: "+cl.Src, cl)
 		g.lightGoal(ko, cl.E, env, cond)
 	}
+	for i, cl := range spec.Iteration {
+		// a statement about one pass through the body: checked at every back edge against the state in
+		// which this pass started (loopold); unlike an invariant it is not assumed at the head
+		ienv := g.envAt(st, nil)
+		ienv.localsFirst = true
+		ienv.loopOld = g.loopHeadState[li]
+		s := g.mustEval(cl, ienv)
+		lab := cl.Label
+		if lab == "" {
+			lab = fmt.Sprintf("%d.%d", li.ord, i)
+		}
+		if n := g.safeCtr["iter."+lab]; n > 0 {
+			lab = fmt.Sprintf("%s/%d", lab, n)
+		}
+		g.safeCtr["iter."+strings.Split(lab, "/")[0]]++
+		io := g.addObl("iteration", lab, implies(cond, s), pos, "every pass through the loop body: "+cl.Src, cl)
+		g.lightGoal(io, cl.E, ienv, cond)
+	}
 	if spec.Decreases != nil {
 		d := g.mustEval(spec.Decreases, env)
 		d0 := g.loopDec[li]
